@@ -280,6 +280,14 @@ def substitute(node, mapping):
     return ast.fix_missing_locations(_Subst(mapping).visit(copy.deepcopy(node)))
 
 
+def _in_subscript_index(target, name):
+    """True if `name` occurs only inside the index / slice of a subscript in the assignment target (it is read, not written)."""
+    for sub in ast.walk(target):
+        if isinstance(sub, ast.Subscript) and any(x is name for x in ast.walk(sub.slice)):
+            return True
+    return False
+
+
 def single_assignments(func):
     """name -> value for locals assigned exactly once by a plain `name = expr`
     (and never augmented / used as loop target / deleted)."""
@@ -289,7 +297,7 @@ def single_assignments(func):
         if isinstance(n, ast.Assign):
             for t in n.targets:
                 for nm in ast.walk(t):
-                    if isinstance(nm, ast.Name):
+                    if isinstance(nm, ast.Name) and (isinstance(nm.ctx, ast.Store) or not _in_subscript_index(t, nm)):
                         counts[nm.id] = counts.get(nm.id, 0) + 1
                 if isinstance(t, ast.Name) and len(n.targets) == 1:
                     vals[t.id] = n.value
